@@ -633,7 +633,13 @@ impl fmt::Display for XmlAttribute {
             value.push_str(&format!("{}", v));
         }
 
-        write!(f, "{}={}", self.local_name.as_str(), escape(value.as_str()))
+        // An attribute whose pieces were edited may hold both kinds of quote.
+        let literal = if value.contains('"') && value.contains('\'') {
+            format!("\"{}\"", value.replace('"', "&quot;"))
+        } else {
+            escape(value.as_str())
+        };
+        write!(f, "{}={}", self.local_name.as_str(), literal)
     }
 }
 
